@@ -835,7 +835,17 @@ def writer_spec_verdict(case, impl):
         return (f"writer-roundtrip:{what}:{tag}",
                 "reading back the finalised file does not return exactly the appended rows, in order, unchanged", exp)
     cat = [r for ch in impl[2] for r in ch[1]]
-    if cat != exp[1]:
+    want_rows = exp[1]
+    if case.get("rec_narrow") and case["suffix"] != ".parquet":
+        # the harness itself handed whole numbers of a float column over as integers, so the text file holds "2"
+        # next to "2.5": a reader chunk holding only such values parses them as integers (per-chunk type inference of
+        # the text reader, outside the writer clause) — compare the numbers, not their kind
+        def num(a):
+            return "f" + float(int(a[1:])).hex() if a.startswith("i") else a
+
+        cat = [(i, [(n, num(a)) for n, a in cells]) for i, cells in cat]
+        want_rows = [(i, [(n, num(a)) for n, a in cells]) for i, cells in want_rows]
+    if cat != want_rows:
         return (f"writer-roundtrip-chunked:{tag}", "chunk-wise read-back of the finalised file differs from the "
                 "appended rows", exp)
     if len(impl) > 4 and impl[4] != exp:
